@@ -200,7 +200,7 @@ fn replay() -> Option<Value> {
     Some(w["witness"].clone())
 }
 
-#[cfg(descriptive_gate)]
+#[cfg(all(descriptive_gate, not(feature = "shuttle")))]
 #[test]
 fn verif_c01_corners() {
     corners("verif_c01_corners");
@@ -213,6 +213,7 @@ fn verif_c01_cg_corners() {
     corners("verif_c01_cg_corners");
 }
 
+#[cfg(not(feature = "shuttle"))]
 fn corners(test_name: &'static str) {
     let env = vlib::env();
     let mut rec = Recorder::new("C01", test_name);
@@ -271,7 +272,7 @@ fn corners(test_name: &'static str) {
     rec.finish();
 }
 
-#[cfg(descriptive_gate)]
+#[cfg(all(descriptive_gate, not(feature = "shuttle")))]
 #[test]
 fn verif_c01_seeded() {
     seeded("verif_c01_seeded");
@@ -283,6 +284,7 @@ fn verif_c01_cg_seeded() {
     seeded("verif_c01_cg_seeded");
 }
 
+#[cfg(not(feature = "shuttle"))]
 fn seeded(test_name: &'static str) {
     let env = vlib::env();
     let mut rec = Recorder::new("C01", test_name);
@@ -326,7 +328,7 @@ fn seeded(test_name: &'static str) {
 /// Explicit class: small multi-shard inputs and skewed placements (a shard without rows at some
 /// stage). On the current tree these runs exercise the known findings; any *other* failure shape is
 /// reported as a violation.
-#[cfg(descriptive_gate)]
+#[cfg(all(descriptive_gate, not(feature = "shuttle")))]
 #[test]
 fn verif_c01_sparse_shards() {
     let env = vlib::env();
@@ -366,6 +368,60 @@ fn verif_c01_sparse_shards() {
         judge(&mut rec, &case, &run, "sparse", dname, idx);
         if rec.want_sample() && idx % 3 == 0 {
             rec.sample(json!({"case": case.summary(), "leader": run.leader_classes(), "first_empty_stage": run.first_empty_stage(), "stages": run.stages_json()}));
+        }
+    }
+    rec.finish();
+}
+
+/// Schedule exploration (build b2): small queries under shuttle's random and PCT schedulers; every schedule's
+/// result must equal the reference; a deadlock reported by shuttle is "query never completes".
+#[cfg(feature = "shuttle")]
+#[test]
+fn verif_c01_sh_schedules() {
+    let env = vlib::env();
+    let mut rec = Recorder::new("C01", "verif_c01_sh_schedules");
+    let n_cases = env.pick(4, 16);
+    let iters = env.pick(6, 20);
+    for idx in 0..n_cases {
+        if !env.mine(idx) {
+            continue;
+        }
+        let mut r = VRng::new(env.seed ^ 0x5c4e, idx as u64);
+        let shards = 1 + idx % 2;
+        let mut reports = pairs(0..(if shards == 1 { 3 } else { 30 }), &mut r, None, None);
+        reports.extend([Rep::Conv { mk: 7, v: 7 }, Rep::Conv { mk: 7, v: 1 }, Rep::Imp { mk: 8, bk: 3 }]);
+        r.shuffle(&mut reports);
+        let case = HybridCase {
+            assign: (0..reports.len()).map(|i| i % shards).collect(),
+            reports,
+            shards,
+            malicious: idx % 4 < 2,
+            padding: false,
+            hv_bits: 32,
+            world_seed: env.seed.wrapping_mul(523) + idx as u64,
+            exec: Exec::Paused,
+        };
+        let pct = idx % 2 == 1;
+        match wl::run_hybrid_shuttle(&case, iters, pct) {
+            Ok(runs) => {
+                rec.add("shuttle_schedules_run", runs.len() as u64);
+                for (k, run) in runs.iter().enumerate() {
+                    if judge(&mut rec, &case, run, "shuttle", if pct { "pct" } else { "random" }, idx * 1000 + k) {
+                        rec.distinct(&("sh", idx, k));
+                    }
+                }
+            }
+            Err(p) => {
+                rec.eval();
+                rec.violation(
+                    "the query did not complete under a shuttle schedule (deadlock or panic reported by the scheduler)",
+                    json!({"kind": "shuttle_failure", "deadlock": p.contains("deadlock"), "multi_shard": shards > 1}),
+                    json!({"case": idx, "hybrid_case": case.to_json(), "panic": p.chars().take(1500).collect::<String>()}),
+                );
+            }
+        }
+        if rec.want_sample() {
+            rec.sample(json!({"case": case.summary(), "scheduler": if pct { "pct(3)" } else { "random" }, "iterations": iters}));
         }
     }
     rec.finish();
